@@ -472,6 +472,16 @@ def rnd_op(rng, idnt, weights=None):
     kinds = list(w)
     k = rng.choices(kinds, [w[x] for x in kinds])[0]
     if k == "ApplyPre":
+        if idnt is not None and rng.random() < 0.25:
+            # the pipeline that is already applied, requested again (with or
+            # without details): nothing may change, stale or missing results
+            # included
+            try:
+                return ("ApplyPre", copy.deepcopy(idnt.preprocessing),
+                        copy.deepcopy(idnt.preprocessing_options),
+                        rng.random() < 0.6)
+            except BaseException:
+                pass
         p = rnd_pipe(rng) if rng.random() < 0.9 else None
         o = rnd_opts(rng) if rng.random() < 0.6 else None
         return ("ApplyPre", p, o, rng.random() < 0.2)
